@@ -649,11 +649,11 @@ pub fn schedule() -> BoxedStrategy<Schedule> {
     |(mut ov, hs, lifo)| {
       ov.sort();
       ov.dedup_by_key(|x| x.0);
-      Schedule { overrides: ov, walk: None, hash_seed: hs, notify_lifo: lifo }
+      Schedule { overrides: ov, walk: None, hash_seed: hs, notify_lifo: lifo, spurious: false }
     },
   );
-  let dense = (any::<u64>(), prop::sample::select(vec![10u8, 25, 50]), 0u64..4, any::<bool>()).prop_map(
-    |(seed, pct, hs, lifo)| Schedule { overrides: vec![], walk: Some((seed | 1, pct)), hash_seed: hs, notify_lifo: lifo },
+  let dense = (any::<u64>(), prop::sample::select(vec![10u8, 25, 50]), 0u64..4, any::<bool>(), prop::bool::weighted(0.25)).prop_map(
+    |(seed, pct, hs, lifo, spurious)| Schedule { overrides: vec![], walk: Some((seed | 1, pct)), hash_seed: hs, notify_lifo: lifo, spurious },
   );
   prop_oneof![2 => sparse, 3 => dense].boxed()
 }
